@@ -10,7 +10,7 @@ import gpytorch
 from gpytorch import kernels as gk
 
 D_FULL = 3  # feature columns of every generated input
-AD = (0, 2)  # the active_dims used throughout
+AD = (2, 0)  # the active_dims used throughout: NOT ascending on purpose (the order of the selected columns is part of the meaning)
 
 
 def seed_of(*parts):
@@ -68,15 +68,16 @@ class LabelKernel(gk.Kernel):
         return (((p * 32 + u.unsqueeze(-1)) * 4 + a.unsqueeze(-1)) * 32 + v.unsqueeze(-2)) * 4 + c
 
 
-def label_inputs(shape_b, n):
-    """x of shape (*shape_b, n, D_FULL): column 0 holds the row label (row-major over batch and rows), like Iota in the spec."""
+def label_inputs(shape_b, n, col=0):
+    """x of shape (*shape_b, n, D_FULL): column `col` holds the row label (row-major over batch and rows), like Iota in the
+    spec.  col = active_dims[0] for a stub with active_dims: the stub reads column 0 of the SELECTED columns."""
     tot = n
     for b in shape_b:
         tot *= b
     x = torch.zeros(*shape_b, n, D_FULL, dtype=torch.float64)
-    x[..., 0] = torch.arange(tot, dtype=torch.float64).reshape(*shape_b, n)
-    x[..., 1] = 0.25
-    x[..., 2] = -0.5
+    for c, v in zip(range(D_FULL), (0.75, 0.25, -0.5)):
+        x[..., c] = v
+    x[..., col] = torch.arange(tot, dtype=torch.float64).reshape(*shape_b, n)
     return x
 
 
@@ -120,6 +121,7 @@ def zoo():
     add("Periodic", lambda PB, ad, d: gk.PeriodicKernel(**_kw(PB, ad)))
     add("Cosine", lambda PB, ad, d: gk.CosineKernel(**_kw(PB, ad)))
     add("Linear", lambda PB, ad, d: gk.LinearKernel(**_kw(PB, ad)), quick=True)
+    add("Linear-ard", lambda PB, ad, d: gk.LinearKernel(ard_num_dims=_dim(d, ad), **_kw(PB, ad)))
     add("Polynomial", lambda PB, ad, d: gk.PolynomialKernel(power=2, **_kw(PB, ad)))
     add("PiecewisePolynomial", lambda PB, ad, d: gk.PiecewisePolynomialKernel(q=2, **_kw(PB, ad)))
     add("Constant", lambda PB, ad, d: gk.ConstantKernel(**_kw(PB, ad)))
